@@ -39,7 +39,8 @@ class Contract:
         self.max_recursion = max_recursion
         self.decorators = list(decorators)
         self.regex_env = regex_env or {}
-        self.ghost_after = ghost_after or {}   # statement-text pattern -> ghost code run after matching statements
+        self.ghost_after = ghost_after or {}
+        self.repair_strings = False   # statement-text pattern -> ghost code run after matching statements
 
 
 class SpecModule:
@@ -373,6 +374,11 @@ def verify(env, c, thorough=False):
                             from .witness import concretize
                             inputs = paths[ob.path_id].inputs
                             o.witness = {k: concretize(r.model_ref, v) for k, v in inputs.items()}
+                            if getattr(c, 'repair_strings', False):
+                                from . import specnative
+                                for k, v in inputs.items():
+                                    if isinstance(v, Sym) and v.kind == STR:
+                                        o.witness[k] = specnative.repair_string(r.model_ref, v.t)
                         except Exception as e:
                             o.witness_error = f'{type(e).__name__}: {e}'
         elif r.verdict == 'unknown':
